@@ -12,6 +12,7 @@
 #include <string>
 #include <vector>
 #include <deque>
+#include <map>
 #include <functional>
 #include <mutex>
 #include <thread>
@@ -58,6 +59,7 @@ public:
   bool first_timestep = true;
   std::vector<cvm::rvector> prev_total; // sys(t-1)+applied(t-1) per slot (late convention)
   bool have_prev_total = false;
+  double loop_lambda = 0.0;   // the engine adds lambda times the forces Colvars applied to the forces that act at this step
 
   // ---- smp control
   // mode 0: base class behaviour (OpenMP); 1: serial in a given permutation with logical
@@ -84,6 +86,8 @@ public:
 
   // ---- scripted callbacks
   std::function<int()> force_callback;
+  std::map<std::string, double> scripted_forces;   // variable name -> force added by the scripted-force task
+  bool scripted_actual = false;   // route the scripted force through add_bias_force_actual_value (bypasses an extended coordinate)
 
   simproxy()
   {
@@ -440,7 +444,16 @@ public:
   int run_force_callback() override
   {
     if (force_callback) return force_callback();
-    return colvarproxy::run_force_callback();
+    for (auto const &kv : scripted_forces) {
+      colvar *c = cvm::colvar_by_name(kv.first);
+      if (c) {
+        colvarvalue f(c->value());
+        f.reset();
+        f.real_value = kv.second;
+        if (scripted_actual) c->add_bias_force_actual_value(f); else c->add_bias_force(f);
+      }
+    }
+    return COLVARS_OK;
   }
 
   // ---- one engine step.  pos/sys are indexed by engine atom id (0-based).
@@ -481,7 +494,7 @@ public:
       size_t const id = atoms_ids[i];
       cvm::rvector s(0.0, 0.0, 0.0);
       if (id < sys.size()) s = sys[id];
-      prev_total[i] = s + atoms_new_colvar_forces[i];
+      prev_total[i] = s + (1.0 + loop_lambda) * atoms_new_colvar_forces[i];
     }
     have_prev_total = true;
     return rc;
